@@ -352,6 +352,15 @@ def run(rep):
                     for a in pt['args'][1:]:
                         if op_place(a):
                             arg_roots.add(canon(body, op_place(a)))
+                    # what is pushed: nodes reached through an arena handle (shared: a DAG) need the visited guard; owned sub-structure of the popped
+                    # node (the nested blocks of a statement) is a tree - every node is pushed once, the loop is linear
+                    val_locals = [op_local(a) for a in pt['args'][1:] if op_local(a) is not None]
+                    handle_vals = [l_ for l_ in val_locals if is_handle_ty(body.locals[l_]) or 'naga::Handle<' in body.locals[l_]]
+                    _, vcalls, _ = body.backward_slice(val_locals, through_calls=True)
+                    if not handle_vals and not any((c_['callee'] or c_['raw']) in ARENA_INDEX for _, c_ in vcalls):
+                        rep.ok('C20.tree-recursion', key + f':push@{pb}', body.where(pb), 'the work list receives owned sub-structure of the popped node (no arena handle in the backward slice '
+                               'of the pushed value): each node is pushed once, linear')
+                        continue
                     ok, desc = guard_of_any(body, pb)
                     rep.check(ok, 'C20.worklist-guard', key, body.where(pb),
                               f'worklist loop (pop and push on one collection inside a loop) without a visited-set branch '
